@@ -21,9 +21,16 @@ from typing import Any, Callable, Iterable
 
 VERIF = Path(__file__).resolve().parent.parent
 SPECS = VERIF / "specs"
-WORK = VERIF / ".work"
-EVIDENCE = VERIF / "evidence"
-REPLAYS = VERIF / "replays"
+# The registered checks always run against /repo and write below /verif.  For experiments with seeded changes
+# (tools/seed.py) VERIF_REPO points at a scratch worktree of the repository and VERIF_SCRATCH at a directory that
+# receives the work files, evidence and replay files of that run, so that such runs neither touch /repo nor
+# overwrite the evidence of the unchanged tree.
+REPO = os.environ.get("VERIF_REPO", "/repo").rstrip("/")
+_SCRATCH = os.environ.get("VERIF_SCRATCH")
+_OUT = Path(_SCRATCH) if _SCRATCH else VERIF
+WORK = _OUT / ".work"
+EVIDENCE = _OUT / "evidence"
+REPLAYS = _OUT / "replays"
 TLA_JAR = "/opt/veriftools/tla/tla2tools.jar"
 TLA_DEPS = "/opt/veriftools/tla/CommunityModules-deps.jar"
 
@@ -356,12 +363,12 @@ def setup_repo_import() -> None:
     os.environ.setdefault("PYTHONDONTWRITEBYTECODE", "1")
     os.environ.setdefault("NUMBA_CACHE_DIR", str(WORK / "numba"))
     sys.dont_write_bytecode = True
-    if "/repo" not in sys.path:
-        sys.path.insert(0, "/repo")
+    if REPO not in sys.path:
+        sys.path.insert(0, REPO)
     import droplets  # noqa
 
-    if not droplets.__file__.startswith("/repo/"):
-        raise MachineryError(f"droplets imported from {droplets.__file__}, not /repo")
+    if not droplets.__file__.startswith(REPO + "/"):
+        raise MachineryError(f"droplets imported from {droplets.__file__}, not {REPO}")
     import logging
 
     logging.disable(logging.WARNING)
